@@ -339,8 +339,32 @@ func (w *txWorld) finalize(txs [][]byte) (*abci.ResponseFinalizeBlock, error) {
 	return res, nil
 }
 
+// topUp keeps every block signer able to pay its fees: a transaction refused by the ante handler for lack of funds would be
+// an `rejected:ante` the model cannot know about (false alarm of the thorough tier after round 5: the 1000-token signer
+// paid its 84th fee).  Minting happens between blocks, before the dumps the monitors compare.
+func (w *txWorld) topUp(signers []*helpers.Signer) {
+	low := sdkmath.NewInt(1e18).MulRaw(500)
+	for _, sg := range signers {
+		if bal := w.s.App.BankKeeper.GetBalance(w.s.Ctx, sg.AccAddress(), fxtypes.DefaultDenom); bal.Amount.LT(low) {
+			w.s.MintToken(sg.AccAddress(), helpers.NewStakingCoin(100_000, 18))
+			w.out.Count("blk:signer-topped-up")
+		}
+	}
+}
+
+// anteCode records WHY the ante handler refused (statistics; `sdk/5` / `sdk/13` would be funds, not the authority)
+// `own`: the fee payer is the account whose key signed (otherwise it is whatever account the authority spells — a module
+// account, a fresh account — and lacking funds is an expected reason)
+func (w *txWorld) anteCode(kind string, r *abci.ExecTxResult, own bool) {
+	w.out.Count(fmt.Sprintf("%s:ante-code:%s/%d", kind, r.Codespace, r.Code))
+	if own && r.Codespace == sdkerrors.ErrInsufficientFunds.Codespace() && (r.Code == sdkerrors.ErrInsufficientFunds.ABCICode() || r.Code == sdkerrors.ErrInsufficientFee.ABCICode()) {
+		w.out.Count(kind + ":SIGNER-out-of-funds(generator-environment-defect)")
+	}
+}
+
 func (w *txWorld) blockStream(rng *rand.Rand, cases []txCase, junk []cand, other string) {
 	out, app := w.out, w.s.App
+	w.topUp(append([]*helpers.Signer{w.alice, w.bob}, w.more...))
 	// an empty block first: what the begin / end blockers change on their own
 	before := hx.DumpAll(w.s.Ctx, w.keys)
 	var ferr error
@@ -375,7 +399,8 @@ func (w *txWorld) blockStream(rng *rand.Rand, cases []txCase, junk []cand, other
 		by := signers[i]
 		me := by.AccAddress().String()
 		cs := []cand{{"signer", me}, {"signer", me}, {"signer-upper", strings.ToUpper(me)}, {"gov", w.gov}, {"GOV-upper", strings.ToUpper(w.gov)},
-			{"other-account", signers[(i+1)%len(signers)].AccAddress().String()}, {"module", other}, junk[rng.Intn(len(junk))], junk[len(junk)-1]}
+			{"other-account", signers[(i+1)%len(signers)].AccAddress().String()}, {"other-account-upper", strings.ToUpper(signers[(i+1)%len(signers)].AccAddress().String())},
+			{"module", other}, junk[rng.Intn(len(junk))], junk[len(junk)-1]}
 		c := cs[rng.Intn(len(cs))]
 		setAuthority(m, c.val)
 		o := one{by: by, m: m, tc: tc, c: c, seq0: w.seq(by.AccAddress())}
@@ -425,6 +450,7 @@ func (w *txWorld) blockStream(rng *rand.Rand, cases []txCase, junk []cand, other
 			ob = "rejected:basic"
 		case seq1 == o.seq0:
 			ob = "rejected:ante"
+			w.anteCode("blk", r, strings.HasPrefix(o.c.kind, "signer"))
 		case r.Codespace == govtypes.ErrInvalidSigner.Codespace() && r.Code == sigCode:
 			ob = "rejected:signer"
 		}
